@@ -64,11 +64,6 @@ pub fn decode_response(buf: &[u8]) -> Result<Option<ResponseAdu>> {
                     log::error!("Failed to decode response PDU: {err}");
                 })
         })
-        .map_err(|_| {
-            // Decoding the transport frame is non-destructive and must
-            // never fail!
-            unreachable!();
-        })
 }
 
 /// Encode an TCP response.
